@@ -5,9 +5,9 @@ META = {
     "property_id": "C09",
     "technique": "Coq theorems on the slave-port model (measurement = IEEE formula, exact) + executable oracle ok_C09 recomputing the formula from the history's inputs, evaluated in Coq on implementation traces + trace correspondence",
     "category": "proof",
-    "text": "Proved for all operand values (below 2^100 units of 2^-32 ns): a completed Sync exchange yields raw offset recv - send - asymmetry and offset raw - mean_delay exactly; a completed Delay exchange yields send - recv - asymmetry and delay (last_raw_sync - raw)/2 truncated. The history-level statement (every measurement equals the formula on messages with one sequence id from the selected parent, whatever the interleaving, duplication or loss) is the executable oracle ok_C09, which recomputes the values from the inputs alone and is evaluated inside Coq on the real implementation's traces; the model is compared with the implementation event by event.",
+    "text": "Whole histories: C09_main - for every valid set-up and EVERY valid event list the complete oracle ok_C09 accepts the model's own trace: every Sync/Delay measurement handed to the filter is exactly t2-t1-asymmetry resp. t3-t4-asymmetry (corrections applied, units of 2^-32 ns) of ONE Sync/Follow_Up resp. Delay_Req timestamp/Delay_Resp pair with equal sequence id from the parent shown by parentDS within the current slave episode; offset = raw - mean delay; delay = (last raw sync - raw)/2; only a slave port emits them. C09_not_from_parent_ignored: in every reachable state Sync/Follow_Up/Delay_Resp not from the parent change nothing. Proved for all operand values (below 2^100 units of 2^-32 ns): a completed Sync exchange yields raw offset recv - send - asymmetry and offset raw - mean_delay exactly; a completed Delay exchange yields send - recv - asymmetry and delay (last_raw_sync - raw)/2 truncated. The history-level statement (every measurement equals the formula on messages with one sequence id from the selected parent, whatever the interleaving, duplication or loss) is the executable oracle ok_C09, which recomputes the values from the inputs alone and is evaluated inside Coq on the real implementation's traces; the model is compared with the implementation event by event.",
     "design_ref": "DESIGN.md section 6 (C09)",
-    "level_note": "Theorems are about Port/PortModel.extract_measurement (closed under the global context). Not yet proved: the invariant that the stored send/recv times always stem from messages carrying the stored sequence id from the remote master (sync_state_inv) and hence the whole-trace theorem; on traces this is checked by evaluation of ok_C09 only. Exchanges are identified modulo 2^16. Measurements computed after a Time saturated at 0 (correction larger than the timestamp) are outside the oracle's domain.",
+    "level_note": "Theorems closed under the global context. The coupling invariant (MainC09.cpl: the pending halves of SlaveState stem from recorded messages with the stored sequence id from the selected master; nothing complete is ever left unconsumed) is proved through every handler, the BMCA and every history. Saturating Time arithmetic: the oracle (and the theorem) judge only histories whose corrected timestamps are non-negative, as before. Exchanges are identified by sequence id, as in the code.",
 }
 
 S = portcheck.make(
